@@ -198,11 +198,6 @@ theorem dot_smul (e v : List K) (l : K) : dot e (v.map (l * ·)) = l * dot e v :
     | nil => simp [dot]
     | cons x v => simp only [List.map_cons, dot_cons, ih]; ring
 
-/-- `Σ_i λ_i v_i` for points `v_i` with `n` coordinates -/
-def wsum (n : Nat) : List K → List (List K) → List K
-  | l :: lam, v :: verts => vadd (v.map (l * ·)) (wsum n lam verts)
-  | _, _ => vzero n
-
 theorem wsum_length (n : Nat) (lam : List K) (verts : List (List K))
     (hv : ∀ v ∈ verts, v.length = n) : (wsum n lam verts).length = n := by
   induction lam generalizing verts with
@@ -232,6 +227,147 @@ theorem combine_affine (c0 : K) (c : List K) (lam : List K) (verts : List (List 
       simp only [combine, List.map_cons, dot_cons, this, wsum, List.sum_cons]
       rw [dot_vadd _ _ _ (by simp [hv v (by simp)]) (wsum_length _ _ _ hv'), dot_smul]
       simp [affine]; ring
+
+/-! ### barycentric coordinates on a `d`-simplex (`baryN`, `linearSimplex`): explicit forms for `d = 1, 2, 3` -/
+
+theorem range2_eq : List.range 2 = [0, 1] := rfl
+theorem range3_eq : List.range 3 = [0, 1, 2] := rfl
+
+/-- `2 × 2` determinant with rows `x`, `y` -/
+def det2 (x1 x2 y1 y2 : K) : K := x1 * y2 - x2 * y1
+
+/-- `3 × 3` determinant with rows `x`, `y`, `z` -/
+def det3 (x1 x2 x3 y1 y2 y3 z1 z2 z3 : K) : K :=
+  x1 * (y2 * z3 - y3 * z2) - x2 * (y1 * z3 - y3 * z1) + x3 * (y1 * z2 - y2 * z1)
+
+theorem simplexDet_d1 (a b : K) : simplexDet [[a], [b]] = b - a := by
+  simp [simplexDet, edges, vsub, detN, laplace]
+
+theorem simplexDet_d2 (a1 a2 b1 b2 c1 c2 : K) :
+    simplexDet [[a1, a2], [b1, b2], [c1, c2]] = det2 (b1 - a1) (b2 - a2) (c1 - a1) (c2 - a2) := by
+  simp [simplexDet, edges, vsub, detN, laplace, det2]
+  ring
+
+theorem simplexDet_d3 (a1 a2 a3 b1 b2 b3 c1 c2 c3 e1 e2 e3 : K) :
+    simplexDet [[a1, a2, a3], [b1, b2, b3], [c1, c2, c3], [e1, e2, e3]] =
+      det3 (b1 - a1) (b2 - a2) (b3 - a3) (c1 - a1) (c2 - a2) (c3 - a3) (e1 - a1) (e2 - a2) (e3 - a3) := by
+  simp [simplexDet, edges, vsub, detN, laplace, det3]
+  ring
+
+/-- `d = 1`: the executed interpolant on a non-degenerate segment, in closed form -/
+theorem linearSimplex_eq_d1 (a b va vb x : K) (hdet : simplexDet [[a], [b]] ≠ 0) :
+    linearSimplex [[a], [b]] [va, vb] [x] = some (va + (vb - va) * (x - a) / (b - a)) := by
+  rw [simplexDet_d1] at hdet
+  have hD : detN 1 [[b - a]] = b - a := by simp [detN, laplace]
+  simp only [linearSimplex, baryN, edges, vsub, cramer, List.map, List.zipWith, List.length, List.all_cons, List.all_nil, List.set]
+  simp [hD, hdet]
+  simp only [List.range_one, List.map, List.set, detN, laplace, List.eraseIdx, List.sum_cons, List.sum_nil, wsum, vadd, vzero,
+    List.zipWith, List.replicate, Nat.cast_one, combine, dot]
+  have h2 : -a + b ≠ 0 := by rwa [neg_add_eq_sub]
+  refine ⟨?_, ?_⟩
+  · simp only [List.cons.injEq, and_true]
+    field_simp
+    ring
+  · field_simp
+    ring
+
+/-- `d = 2`: the executed interpolant on a non-degenerate triangle, in closed form (Cramer) -/
+theorem linearSimplex_eq_d2 (a1 a2 b1 b2 c1 c2 va vb vc p1 p2 : K)
+    (hdet : simplexDet [[a1, a2], [b1, b2], [c1, c2]] ≠ 0) :
+    linearSimplex [[a1, a2], [b1, b2], [c1, c2]] [va, vb, vc] [p1, p2] =
+      some (va + ((vb - va) * det2 (p1 - a1) (p2 - a2) (c1 - a1) (c2 - a2)
+                + (vc - va) * det2 (b1 - a1) (b2 - a2) (p1 - a1) (p2 - a2))
+              / det2 (b1 - a1) (b2 - a2) (c1 - a1) (c2 - a2)) := by
+  rw [simplexDet_d2] at hdet
+  have hD : detN 2 [[b1 - a1, b2 - a2], [c1 - a1, c2 - a2]] = det2 (b1 - a1) (b2 - a2) (c1 - a1) (c2 - a2) := by
+    simp [detN, laplace, det2]; ring
+  simp only [linearSimplex, baryN, edges, vsub, cramer, List.map, List.zipWith, List.length, List.all_cons, List.all_nil, List.set]
+  simp [hD, hdet]
+  simp only [range2_eq, List.map, List.set, detN, laplace, List.eraseIdx, List.sum_cons, List.sum_nil, wsum, vadd, vzero,
+    List.zipWith, List.replicate, Nat.cast_one, combine, dot]
+  generalize hd : det2 (b1 - a1) (b2 - a2) (c1 - a1) (c2 - a2) = d at hdet ⊢
+  unfold det2 at hd ⊢
+  refine ⟨?_, ?_⟩
+  · simp only [List.cons.injEq, and_true]
+    refine ⟨?_, ?_⟩ <;>
+    · field_simp
+      rw [← hd]; ring
+  · field_simp
+    ring
+
+/-- `d = 3`: the executed interpolant on a non-degenerate tetrahedron, in closed form (Cramer) -/
+theorem linearSimplex_eq_d3 (a1 a2 a3 b1 b2 b3 c1 c2 c3 e1 e2 e3 va vb vc ve p1 p2 p3 : K)
+    (hdet : simplexDet [[a1, a2, a3], [b1, b2, b3], [c1, c2, c3], [e1, e2, e3]] ≠ 0) :
+    linearSimplex [[a1, a2, a3], [b1, b2, b3], [c1, c2, c3], [e1, e2, e3]] [va, vb, vc, ve] [p1, p2, p3] =
+      some (va + ((vb - va) * det3 (p1 - a1) (p2 - a2) (p3 - a3) (c1 - a1) (c2 - a2) (c3 - a3) (e1 - a1) (e2 - a2) (e3 - a3)
+                + (vc - va) * det3 (b1 - a1) (b2 - a2) (b3 - a3) (p1 - a1) (p2 - a2) (p3 - a3) (e1 - a1) (e2 - a2) (e3 - a3)
+                + (ve - va) * det3 (b1 - a1) (b2 - a2) (b3 - a3) (c1 - a1) (c2 - a2) (c3 - a3) (p1 - a1) (p2 - a2) (p3 - a3))
+              / det3 (b1 - a1) (b2 - a2) (b3 - a3) (c1 - a1) (c2 - a2) (c3 - a3) (e1 - a1) (e2 - a2) (e3 - a3)) := by
+  rw [simplexDet_d3] at hdet
+  have hD : detN 3 [[b1 - a1, b2 - a2, b3 - a3], [c1 - a1, c2 - a2, c3 - a3], [e1 - a1, e2 - a2, e3 - a3]] =
+      det3 (b1 - a1) (b2 - a2) (b3 - a3) (c1 - a1) (c2 - a2) (c3 - a3) (e1 - a1) (e2 - a2) (e3 - a3) := by
+    simp [detN, laplace, det3]; ring
+  simp only [linearSimplex, baryN, edges, vsub, cramer, List.map, List.zipWith, List.length, List.all_cons, List.all_nil, List.set]
+  simp [hD, hdet]
+  simp only [range3_eq, List.map, List.set, detN, laplace, List.eraseIdx, List.sum_cons, List.sum_nil, wsum, vadd, vzero,
+    List.zipWith, List.replicate, Nat.cast_one, combine, dot]
+  generalize hd : det3 (b1 - a1) (b2 - a2) (b3 - a3) (c1 - a1) (c2 - a2) (c3 - a3) (e1 - a1) (e2 - a2) (e3 - a3) = d at hdet ⊢
+  unfold det3 at hd ⊢
+  refine ⟨?_, ?_⟩
+  · simp only [List.cons.injEq, and_true]
+    refine ⟨?_, ?_, ?_⟩ <;>
+    · field_simp
+      rw [← hd]; ring
+  · field_simp
+    ring
+
+/-- dropping a vertex whose weight is zero does not change the weighted sum of the weights … -/
+theorem sum_eraseIdx_zero : ∀ (lam : List K) (i : Nat), lam[i]? = some 0 → (lam.eraseIdx i).sum = lam.sum := by
+  intro lam
+  induction lam with
+  | nil => intro i h; simp at h
+  | cons l lam ih =>
+    intro i h
+    cases i with
+    | zero => simp at h; simp [h]
+    | succ i => simp at h; simp [ih i h]
+
+/-- … nor the weighted sum of the vertices -/
+theorem wsum_eraseIdx_zero (n : Nat) : ∀ (lam : List K) (verts : List (List K)) (i : Nat), lam[i]? = some 0 →
+    (∀ v ∈ verts, v.length = n) → lam.length = verts.length →
+    wsum n (lam.eraseIdx i) (verts.eraseIdx i) = wsum n lam verts := by
+  intro lam
+  induction lam with
+  | nil => intro verts i h; simp at h
+  | cons l lam ih =>
+    intro verts i h hv hl
+    cases verts with
+    | nil => simp at hl
+    | cons v verts =>
+      have hv' : ∀ w ∈ verts, w.length = n := fun w hw => hv w (by simp [hw])
+      simp only [List.length_cons, Nat.add_right_cancel_iff] at hl
+      cases i with
+      | zero =>
+        simp at h
+        subst h
+        simp only [List.eraseIdx_zero, List.tail_cons, wsum]
+        have hz : v.map (fun x => (0 : K) * x) = vzero n := by
+          have := hv v (by simp)
+          subst this
+          simp [vzero, List.eq_replicate_iff]
+        rw [hz, vadd_vzero_left n _ (wsum_length n lam verts hv')]
+      | succ i =>
+        simp at h
+        simp only [List.eraseIdx_cons_succ, wsum, ih verts i h hv' hl]
+
+/-- the flat index of a fine pixel is `i·n + j` (coarse pixel `i`, sub-pixel `j`) -/
+theorem range_mul_eq_flatMap (dim n : Nat) :
+    List.range (dim * n) = (List.range dim).flatMap fun i => (List.range n).map fun j => i * n + j := by
+  induction dim with
+  | zero => simp
+  | succ d ih =>
+    rw [Nat.succ_mul, List.range_add, ih, List.range_succ, List.flatMap_append]
+    simp
 
 /-! ### nearest neighbour -/
 
